@@ -56,6 +56,10 @@ pub fn solve_instance(input_data: serde_json::Value) -> serde_json::Value {
         SwapInfo::NoSwap,
         "Result from min cost flow solver".to_string(),
     );
+    #[cfg(rssched_verif)]
+    solver::verif_hooks::record("mcf", &start_schedule);
+    #[cfg(rssched_verif)]
+    solver::verif_hooks::record("start", start_schedule_with_info.get_schedule());
 
     let solution = if network.maintenance_considered() {
         println!("\nStarting local search:\n");
@@ -80,6 +84,8 @@ pub fn solve_instance(input_data: serde_json::Value) -> serde_json::Value {
     let start_time_transition_optimization = stdtime::Instant::now();
     let mut optimized_transitions: HashMap<VehicleTypeIdx, Transition> = HashMap::new();
     let schedule = solution.solution().get_schedule();
+    #[cfg(rssched_verif)]
+    solver::verif_hooks::record("ls_result", schedule);
     let transition_local_search_solver =
         build_transition_local_search_solver(schedule, network.clone());
     for vehicle_type in network.vehicle_types().iter() {
@@ -100,6 +106,8 @@ pub fn solve_instance(input_data: serde_json::Value) -> serde_json::Value {
     }
     let schedule_with_optimized_transitions =
         schedule.set_next_day_transitions(optimized_transitions);
+    #[cfg(rssched_verif)]
+    solver::verif_hooks::record("opt", &schedule_with_optimized_transitions);
     println!(
         "Transition optimized (elapsed time: {:0.2}sec)",
         start_time_transition_optimization.elapsed().as_secs_f32()
@@ -122,6 +130,8 @@ pub fn solve_instance(input_data: serde_json::Value) -> serde_json::Value {
     let runtime_duration = end_time.duration_since(start_time);
 
     let final_schedule = final_solution.solution().get_schedule();
+    #[cfg(rssched_verif)]
+    solver::verif_hooks::record("final", final_schedule);
 
     let overflow_depot = network.overflow_depot_idxs().0;
     for vehicle_type in network.vehicle_types().iter() {
